@@ -11,6 +11,7 @@ global size_of usize == 8;
 //@include preamble/xbitstr_opaque.rs
 //@include preamble/state_types.rs
 //@include spec/cell_specs.rs
+//@include spec/xmap_specs.rs
 
 // R3c: string constants (message text is dropped)
 #[verifier::external_body] fn verif_lit_xstr() -> Xstr { unimplemented!() }
@@ -36,6 +37,9 @@ impl Cell {
 //@use cell.fns Cell::to_any
 //@use cell.fns Cell::tags
 //@use cell.fns Cell::with_tags
+//@use cell.fns Cell::insert_tag
+//@use cell.fns Cell::remove_tag
+//@use cell.fns Cell::get_tag
 }
 
 } // verus!
